@@ -25,7 +25,7 @@ Fixpoint act_st (p : bool) (l : list item) : option bool :=
 Lemma act_st_app p a : forall b, act_st p (a ++ b) = match act_st p a with Some q => act_st q b | None => None end.
 Proof.
   revert p. induction a as [|i a IH]; intros p b; cbn [app act_st]; [reflexivity|].
-  destruct i as [m c t x| | | | | |m who cc| | | |]; try apply IH.
+  destruct i as [m c t x| | | | | |m who cc| | | | | |]; try apply IH.
   - destruct (x || p); [apply IH|reflexivity].
   - destruct who; apply IH.
 Qed.
@@ -67,7 +67,7 @@ Definition plain (i : item) : bool :=
   match i with ICall _ _ _ _ | IPanic _ 0 _ | IShut _ _ _ | IQuiet _ => false | _ => true end.
 
 Lemma act_st_plain i p : plain i = true -> act_st p [i] = Some p.
-Proof. destruct i as [| | | | | |m who cc| | | |]; try discriminate; try reflexivity. destruct who; [discriminate|reflexivity]. Qed.
+Proof. destruct i as [| | | | | |m who cc| | | | | |]; try discriminate; try reflexivity. destruct who; [discriminate|reflexivity]. Qed.
 
 Lemma plain_not_req i : plain i = true -> is_req i = false.
 Proof. destruct i; try discriminate; reflexivity. Qed.
@@ -91,7 +91,7 @@ Proof.
   - apply Forall_app. split; [exact d|constructor; [apply plain_tag, Hp|constructor]].
   - intros Hb. destruct (e Hb) as (p & e1 & e2). exists p. rewrite act_st_app, e1, (act_st_plain i p Hp). auto.
   - rewrite existsb_app. cbn [existsb]. rewrite (plain_not_req i Hp), !orb_false_r. exact f.
-  - rewrite shut_of_snoc, <- g. destruct i as [| | | | |mm ww [dd|]| | | | |]; try discriminate; reflexivity.
+  - rewrite shut_of_snoc, <- g. destruct i as [| | | | |mm ww [dd|]| | | | | | |]; try discriminate; reflexivity.
 Qed.
 
 Lemma FrP_shut_inv b now m j s w' : FrP m (x_w s) w' -> shut (w_mod w' m) = shut (w_mod (x_w s) m) ->
@@ -117,7 +117,7 @@ Proof.
   - intros Hb. destruct (e Hb) as (p & e1 & e2). exists p. rewrite act_st_app, e1.
     destruct i; try discriminate; cbn [act_st]; auto.
   - rewrite Hs, existsb_app. cbn [existsb]. rewrite Hr, orb_true_r.
-    destruct i as [| | | | |mm ww [dd|]| |mm| | |]; try discriminate; cbn [shut_step]; try reflexivity.
+    destruct i as [| | | | |mm ww [dd|]| |mm| | | | |]; try discriminate; cbn [shut_step]; try reflexivity.
     destruct (shut (w_mod (x_w s) m)); reflexivity.
   - rewrite Hs, shut_of_snoc, g. reflexivity.
 Qed.
@@ -188,6 +188,15 @@ Proof.
   - rewrite shut_of_snoc, <- g. reflexivity.
 Qed.
 
+Lemma end_task_CInv b now m j how s tk : CInv b now m j s -> CInv b now m j (end_task m how s tk).
+Proof.
+  intros H. unfold end_task. apply CInv_say_plain; [reflexivity|]. destruct s as [w1 l1].
+  apply (CInv_world b now m j {| x_w := w1; x_log := l1 |}); try exact H; cbn [x_w]; rewrite mod_same; reflexivity.
+Qed.
+
+Lemma fold_end_task_CInv b now m j : forall l s, CInv b now m j s -> CInv b now m j (fold_left (end_task m 0) l s).
+Proof. induction l as [|tk l IH]; intros s H; cbn [fold_left]; [exact H|]. apply IH, end_task_CInv, H. Qed.
+
 Lemma poll1_CInv b k now m j s tk : tk_inc tk = j -> CInv b now m j s -> CInv b now m j (poll1 k now m s tk).
 Proof.
   intros Hj H. unfold poll1.
@@ -199,8 +208,7 @@ Proof.
   match goal with |- context [run_prog true k now m ?who ?p ?s0] =>
     destruct (run_prog_CInv b true k now m who j Hw Hw0 p s0 H0) as [H1 _];
     destruct (run_prog true k now m who p s0) as [s1 r] end.
-  cbn [fst] in H1. destruct r; try exact H1.
-  - destruct s1 as [w1 l1]. apply (CInv_world b now m j {| x_w := w1; x_log := l1 |}); try exact H1; rewrite mod_same; reflexivity.
+  cbn [fst] in H1. destruct r; try (apply end_task_CInv; exact H1).
   - destruct H1 as [a b0 c d0 e f g]. constructor; cbn [on_w x_w x_log]; rewrite ?mod_same; cbn [inc ready timers active shut set_timers]; try assumption.
     apply tins_forall; [exact Hj|exact c].
 Qed.
@@ -226,11 +234,23 @@ Qed.
 
 Lemma spawn_all_CInv b now m j ps s : CInv b now m j s -> CInv b now m j (on_w (spawn_all m ps) s).
 Proof.
-  intros H. unfold spawn_all. apply CInv_set_ready; [|exact H].
-  apply Forall_app. split; [apply (ci_ready _ _ _ _ _ H)|].
-  apply Forall_forall. intros tk Hin. apply in_map_iff in Hin. destruct Hin as (ip & <- & _). cbn [tk_inc].
-  apply (ci_inc _ _ _ _ _ H).
+  intros H. unfold spawn_all. pose proof H as [a b0 c d e f g].
+  constructor; cbn [on_w x_w x_log]; rewrite ?mod_same; cbn [inc ready timers active shut set_ready set_hnd]; try assumption.
+  apply Forall_app. split; [exact b0|].
+  apply Forall_forall. intros tk Hin. apply in_map_iff in Hin. destruct Hin as (ip & <- & _). cbn [tk_inc]. exact a.
 Qed.
+
+Lemma CInv_say_all_plain b now m j : forall l s, forallb plain l = true -> CInv b now m j s -> CInv b now m j (say_all l s).
+Proof.
+  induction l as [|i l IH] using rev_ind; intros s Hl H.
+  - unfold say_all. rewrite app_nil_r. destruct s; exact H.
+  - rewrite forallb_app in Hl. apply andb_prop in Hl. destruct Hl as [Hl Hi]. cbn [forallb] in Hi. rewrite andb_true_r in Hi.
+    assert (E : say_all (l ++ [i]) s = say i (say_all l s)) by (unfold say_all, say; cbn [x_w x_log]; rewrite app_assoc; reflexivity).
+    rewrite E. apply CInv_say_plain; [exact Hi|apply IH; assumption].
+Qed.
+
+Lemma spawn_items_plain m i ps : forallb plain (spawn_items m i ps) = true.
+Proof. unfold spawn_items. induction (combine (seq 0 (length ps)) ps) as [|x l IH]; [reflexivity|exact IH]. Qed.
 
 (* the callbacks' own call records carry no incarnation *)
 Definition cb_plain (c : cb) : Prop := match c with CbTask _ _ | CbTimer _ _ => False | _ => True end.
@@ -240,15 +260,16 @@ Lemma exec_CInv b k now m c sp p j s : cb_plain c -> CInv b now m j s ->
   (b = true -> snd (exec k now m c sp p s) = true -> panicked_st (fst (exec k now m c sp p s))).
 Proof.
   intros Hc H. unfold exec.
-  assert (H0 : CInv b now m j (on_w (spawn_all m sp) (say (ICall m c now (active (w_mod (x_w s) m))) s))).
-  { apply spawn_all_CInv, CInv_call; [destruct c; try exact I; destruct Hc|exact H]. }
+  assert (H0 : CInv b now m j (say_all (spawn_items m (inc (w_mod (x_w s) m)) sp)
+                                 (on_w (spawn_all m sp) (say (ICall m c now (active (w_mod (x_w s) m))) s)))).
+  { apply CInv_say_all_plain; [apply spawn_items_plain|]. apply spawn_all_CInv, CInv_call; [destruct c; try exact I; destruct Hc|exact H]. }
   assert (Hw : false = true -> 0 <> 0) by discriminate.
   destruct (run_prog_CInv b false k now m 0 j Hw (fun _ => eq_refl) p _ H0) as [H1 H2].
   destruct (run_prog false k now m 0 p _) as [s2 r]. cbn [fst snd] in *.
   destruct r; cbn [fst snd].
   - split; [apply poll_ready_CInv, H1|discriminate].
   - split; [exact H1|]. intros Hb _. apply H2; auto.
-  - split; [apply CInv_set_ready; [constructor|exact H1]|discriminate].
+  - split; [apply fold_end_task_CInv, CInv_set_ready; [constructor|exact H1]|discriminate].
   - split; [apply poll_ready_CInv, H1|discriminate].
 Qed.
 
@@ -266,7 +287,7 @@ Qed.
 Lemma at_sim_start_CInv b k c now m stage j s : CInv b now m j s -> CInv b now m j (fst (at_sim_start k c now m stage s)).
 Proof.
   intros H. unfold at_sim_start.
-  set (e := if stage =? 0 then exec k now m (CbStart stage) (c_tasks c) (pick_start c (inc (w_mod (x_w s) m))) s
+  set (e := if stage =? 0 then exec k now m (CbStart stage) (c_spawn c) (pick_start c (inc (w_mod (x_w s) m))) s
             else exec k now m (CbStart stage) [] [] s).
   assert (He : CInv b now m j (fst e) /\ (b = true -> snd e = true -> panicked_st (fst e))).
   { unfold e. destruct (stage =? 0); apply exec_CInv; try exact I; exact H. }
